@@ -80,9 +80,78 @@ KnownDeviation(a, b) ==
     ELSE IF FnOf(a) \in FallbackLibm /\ NearAll(TypeOf(a), a.r, b.r) /\ ("s" \notin DOMAIN a \/ NearAll(TypeOf(a), a.s, b.s)) THEN "KD-C15-cxx98-libm-fallbacks"
     ELSE IF FnOf(a) = "fma" /\ TypeOf(a) \in {"f32", "f64"} /\ Len(a.a) = 3 /\ UnfusedFma(TypeOf(a), a, b) THEN "KD-C15-cxx98-fma-unfused"
     ELSE ""
+(***************************************************************************)
+(* mode "simd" (C03): TraceA = GLM_FORCE_PURE build, TraceB = intrinsic     *)
+(* build with aligned types.  Classes, from the property text:              *)
+(*   EXACT   integer, bitwise, comparison, selection, conversion,           *)
+(*           rounding-to-integer and single correctly rounded floating      *)
+(*           operations: the same value (NaN = NaN, +0 = -0)                *)
+(*   MULTI   multi-term floating expressions: within 16 eps of the largest  *)
+(*           intermediate term, bounded by max(1, |inputs|)^degree (and by  *)
+(*           the result's own magnitude for quotients / roots)              *)
+(*   LOWP    on lowp types only, operations containing a division or a      *)
+(*           square root may use rcp / rsqrt: relative error <= 2^-11 per   *)
+(*           approximation (budget 2^-9 of the result scale)                *)
+(*   branch  refract returns the zero vector in both builds or in neither   *)
+(***************************************************************************)
+Mode == IF "MODE" \in DOMAIN IOEnv THEN IOEnv.MODE ELSE "config"
+ExactOps == {"abs", "floor", "ceil", "round", "trunc", "fract", "sign", "min", "max", "step", "clamp", "mixb", "sqrt", "add", "sub", "mul", "div", "neg",
+             "eq", "ne", "and", "or", "xor", "not", "shr", "shl", "bitCount", "bitfieldReverse", "toFloat", "tr", "cmul", "outer", "madd", "msub", "mmuls",
+             "qadd", "qsub", "qmuls", "qdivs", "qconj", "faceforward", "config"}
+LowpApprox == {"sqrt", "inversesqrt", "div", "normalize", "length", "distance", "smoothstep", "mod", "qnormalize", "qlength", "qinverse", "qdivs", "refract", "reflect", "inverse", "affineInverse", "inverseTranspose"}
+Degree(op) == CASE op \in {"dot", "cross", "mix", "fma", "mm", "mv", "vm", "qmul", "qdot", "qmat3", "qmat4"} -> 2
+                [] op \in {"reflect", "refract", "qrot"} -> 3
+                [] op = "det" -> 4
+                [] OTHER -> 1
+FmtOfEv(ev) == TypeFmt(TypeOf(ev))
+IsFloatW(ev, w) == TypeOf(ev) \in {"f32", "f64"} /\ Len(w) = TypeLimbs(TypeOf(ev))
+RECURSIVE MaxAbsComps(_, _, _)
+MaxAbsComps(f, comps, i) == IF i > Len(comps) THEN DZero
+                            ELSE LET x == Fields(f, comps[i]) rest == MaxAbsComps(f, comps, i + 1)
+                                 IN IF Len(comps[i]) = FNLimbs(f) /\ IsFinite(f, x) THEN DMax(DAbs(Val(f, x)), rest) ELSE rest
+RECURSIVE MaxAbsArgs(_, _, _)
+MaxAbsArgs(f, args, k) == IF k > Len(args) THEN DZero ELSE DMax(MaxAbsComps(f, args[k], 1), MaxAbsArgs(f, args, k + 1))
+RECURSIVE DPowInt(_, _)
+DPowInt(d, n) == IF n = 0 THEN DFromInt(1) ELSE DMul(d, DPowInt(d, n - 1))
+AllZeroVec(ev, r) == \A i \in 1..Len(r) : IsZeroW(TypeOf(ev), r[i])
+ValueSame(t, w, v) == w = v \/ (IsNaNW(t, w) /\ IsNaNW(t, v)) \/ (IsZeroW(t, w) /\ IsZeroW(t, v))
+\* documented domains (events outside are skipped, counted in register 4):
+\*  - min / max / clamp with a NaN operand: GLSL leaves the result undefined (minps returns the second operand, the generic
+\*    code the first);
+\*  - lowp operations that may use rcp / rsqrt: operands finite and either zero or of magnitude within 2^-40 .. 2^40 (the
+\*    approximations flush denormal results and map 0 and infinity onto each other), and a non-zero divisor
+AnyArgComp(f, args, P(_)) == \E k \in 1..Len(args) : \E i \in 1..Len(args[k]) : Len(args[k][i]) = FNLimbs(f) /\ P(Fields(f, args[k][i]))
+Ordinary(f, x) == IsFinite(f, x) /\ (IsZero(f, x) \/ (DLe(DPow2(-40), DAbs(Val(f, x))) /\ DLe(DAbs(Val(f, x)), DPow2(40))))
+SimdDomain(a) ==
+    LET op == FnOf(a) t == TypeOf(a) f == FmtOfEv(a) IN
+    IF t \notin {"f32", "f64"} \/ "a" \notin DOMAIN a THEN TRUE
+    ELSE /\ (op \in {"min", "max", "clamp"} => ~AnyArgComp(f, a.a, LAMBDA x : IsNaN(f, x)))
+         /\ (("q" \in DOMAIN a /\ a.q = "lowp" /\ op \in LowpApprox) =>
+                /\ ~AnyArgComp(f, a.a, LAMBDA x : ~Ordinary(f, x))
+                /\ (op \in {"div", "mod", "qdivs", "inversesqrt"} => ~AnyArgComp(f, <<a.a[Len(a.a)]>>, LAMBDA x : IsZero(f, x))))
+SimdSame(a, b) ==
+    LET op == FnOf(a) t == TypeOf(a) f == FmtOfEv(a) IN
+    IF ~("r" \in DOMAIN a /\ "r" \in DOMAIN b /\ "a" \in DOMAIN a /\ a.a = b.a /\ Len(a.r) = Len(b.r)) THEN FALSE
+    ELSE IF t \notin {"f32", "f64"} \/ (op \in ExactOps /\ ~(a.q = "lowp" /\ op \in LowpApprox)) THEN \A i \in 1..Len(a.r) : ValueSame(t, a.r[i], b.r[i])
+    ELSE LET ra == a.r rb == b.r
+             fin == \A i \in 1..Len(ra) : (IsNaNW(t, ra[i]) /\ IsNaNW(t, rb[i])) \/ (IsFloatW(a, ra[i]) /\ IsFinite(f, Fields(f, ra[i])) /\ IsFinite(f, Fields(f, rb[i])))
+                                            \/ ra[i] = rb[i]
+             mx == DMax(DFromInt(1), MaxAbsArgs(f, a.a, 1))
+             rmax == DMax(MaxAbsComps(f, ra, 1), MaxAbsComps(f, rb, 1))
+             scale == DMax(DPowInt(mx, Degree(op)), rmax)
+             tol == IF a.q = "lowp" /\ op \in LowpApprox THEN DMul2k(scale, -9) ELSE DMul(DMulInt(Eps(f), IF op \in {"inverse", "affineInverse", "inverseTranspose", "qinverse"} THEN 256 ELSE 16), scale)
+             \* lowp mod = x - y * floor(x * rcp(y)): an approximate quotient next to an integer may take the other floor, which
+             \* moves the result by one period |y|; the results then agree modulo y
+             period(i) == LET y == a.a[2] yi == IF Len(y) = Len(ra) THEN y[i] ELSE y[1] IN DAbs(Val(f, Fields(f, yi)))
+             diff(i) == DAbs(DSub(Val(f, Fields(f, ra[i])), Val(f, Fields(f, rb[i]))))
+             close == \A i \in 1..Len(ra) : ra[i] = rb[i] \/ (IsNaNW(t, ra[i]) /\ IsNaNW(t, rb[i]))
+                                             \/ DLe(diff(i), tol)
+                                             \/ (op = "mod" /\ a.q = "lowp" /\ DLe(DAbs(DSub(diff(i), period(i))), tol))
+         IN fin /\ close /\ (op = "refract" => AllZeroVec(a, ra) = AllZeroVec(b, rb))
 Next == /\ l <= Len(TraceA)
-        /\ IF l <= Len(TraceB) /\ Same(TraceA[l], TraceB[l]) THEN Bump(3)
-           ELSE IF l <= Len(TraceB) /\ KnownDeviation(TraceA[l], TraceB[l]) # "" THEN Bump(3) /\ Bump(2) /\ PrintT(<<"KNOWN", KnownDeviation(TraceA[l], TraceB[l]), l>>)
+        /\ IF Mode = "simd" /\ l <= Len(TraceB) /\ "a" \in DOMAIN TraceA[l] /\ "a" \in DOMAIN TraceB[l] /\ TraceA[l].a = TraceB[l].a /\ ~SimdDomain(TraceA[l]) THEN Bump(3) /\ Bump(4)
+           ELSE IF l <= Len(TraceB) /\ (IF Mode = "simd" THEN (FnOf(TraceA[l]) = "config" \/ SimdSame(TraceA[l], TraceB[l])) ELSE Same(TraceA[l], TraceB[l])) THEN Bump(3)
+           ELSE IF Mode # "simd" /\ l <= Len(TraceB) /\ KnownDeviation(TraceA[l], TraceB[l]) # "" THEN Bump(3) /\ Bump(2) /\ PrintT(<<"KNOWN", KnownDeviation(TraceA[l], TraceB[l]), l>>)
            ELSE Bump(3) /\ Bump(1) /\ PrintT(<<"MISMATCH", l, FnOf(TraceA[l])>>)
         /\ l' = l + 1
 Spec == Init /\ [][Next]_l
